@@ -814,7 +814,7 @@ func (e *Engine) excludeF4() bool {
 	return e.plainMaps > 60
 }
 
-// typeNum reduces a generated type number: 48 types normally (type tables with more than 24 entries), mod kinds when F4 is reachable.
+// typeNum reduces a generated type number: 30 types normally (type tables with more than 24 entries), mod kinds when F4 is reachable.
 func (e *Engine) typeNum(n uint64, kinds uint64) uint64 {
 	if e.f4Active() {
 		return n % kinds
@@ -824,7 +824,9 @@ func (e *Engine) typeNum(n uint64, kinds uint64) uint64 {
 		big := []uint64{23, 24, 255, 256, 65535, 65536, 1<<32 - 1, 1 << 32, 1<<64 - 1}
 		return big[n/13%uint64(len(big))]
 	}
-	return n % 48
+	// 30 type numbers: a bulk append of >= 56 nested maps at slab sizes from 1024 upwards puts more than 25 type
+	// informations that are each used twice into one slab (a shared type table with more than 24 / 25 entries)
+	return n % 30
 }
 
 // elemVD derives the i-th element recipe of a container being built.
